@@ -143,6 +143,7 @@ fn body(progs: &[Program]) {
         panic!("ORACLE: text storage leaked (still allocated after every handle was dropped)");
     }
     shim::finish();
+    stats::outcome(format!("storage freed by {}", shim::freed_by().unwrap_or_else(|| "nobody".into())));
     stats::count("executions_ending_with_storage_freed");
 }
 
